@@ -577,6 +577,46 @@ func headValueRule(p *Prog, r *Report, rule string) {
 	if len(ss) == 0 || !some {
 		r.Fail(rule, "setHeadAndSeq:seq", p.pos(fn.Pos()), fnName(fn), "setHeadAndSeq never stores the index of the creator's last event to core.seq")
 	}
+	// the empty head is chosen only when there is no last event: the node is not in the repertoire, or the hash returned by
+	// LastEventFrom is itself empty (an inverted test keeps the head empty on top of a non-empty chain)
+	qNotIn := func(l Lit) bool {
+		_, present, ok := lookupLit(l)
+		return ok && !present
+	}
+	qLastEmpty := func(l Lit) bool {
+		x, y, ok := eqLit(l)
+		if !ok {
+			return false
+		}
+		for _, pr := range [][2]ssa.Value{{x, y}, {y, x}} {
+			if sc, isS := strConst(pr[1]); isS && sc == "" && flowsFrom(pr[0], isLast) {
+				return true
+			}
+		}
+		return false
+	}
+	for i, st := range hs {
+		v := resolveLocalValue(st.Val)
+		okE, n0 := true, 0
+		if ph, isPhi := unwrap(v).(*ssa.Phi); isPhi {
+			for k, e := range ph.Edges {
+				if sc, isS := strConst(e); isS && sc == "" {
+					n0++
+					if g, _ := p.allPathsEdge(ph.Block().Preds[k], ph.Block(), []Pred{qNotIn, qLastEmpty}, func(m uint32) bool { return m != 0 }); !g {
+						okE = false
+					}
+				}
+			}
+		} else if sc, isS := strConst(v); isS && sc == "" {
+			n0++
+			if g, _ := p.allPaths(st, []Pred{qNotIn, qLastEmpty}, func(m uint32) bool { return m != 0 }); !g {
+				okE = false
+			}
+		}
+		if n0 > 0 {
+			r.Check(okE, rule, fmt.Sprintf("setHeadAndSeq:head#%d:empty-only-without-last-event", i), p.ipos(st), fnName(fn), "the head is left empty only when the node has no last event", "core.head can be set to \"\" on a path where Store.LastEventFrom returned a non-empty hash (and the node is in the repertoire): after a restart the node's next event would have no self-parent and be refused for ever")
+		}
+	}
 	qOK := func(l Lit) bool { _, ok := errNilLit(l, lastM); return ok }
 	qEmpty := func(l Lit) bool {
 		if !l.Pos {
